@@ -20,6 +20,6 @@ try:
     if os.environ.get('MUT_TESTS'):
         r = sh('cd %s/grpcgcp && GOFLAGS=-mod=mod go test -count=1 ./... 2>&1 | tail -5' % REPO)
     for c in checks:
-        r = sh('/verif/vcheck %s --no-evidence 2>&1 | grep -E "^(VIOLATION|KNOWN|C[0-9]+ tier|CHECK-ERROR|---)" | cut -c1-220 | head -12' % c)
+        r = sh(os.path.join(os.path.dirname(os.path.abspath(__file__)), '..', 'vcheck') + ' %s --no-evidence 2>&1 | grep -E "^(VIOLATION|KNOWN|C[0-9]+ tier|CHECK-ERROR|---)" | cut -c1-220 | head -12' % c)
 finally:
     sh('git -C %s checkout -- . ' % REPO)
